@@ -197,8 +197,10 @@ struct NodeInner {
 }
 
 fn err_code_for(path: &str) -> u32 {
-    // alternate between an application-range code and a protocol-level one
-    if hash_of(&path) & 1 == 0 { 4096 } else { 6 }
+    // every known error code can come back as a reply (the retryable-sounding ones included:
+    // Timeout = 7, ResourceExhausted = 8); none of them is a transport failure
+    const CODES: [u32; 10] = [4096, 6, 8, 7, 9, 1, 2, 3, 4, 5];
+    CODES[(hash_of(&path) % 10) as usize]
 }
 
 fn err_text_for(path: &str) -> String {
@@ -1039,7 +1041,7 @@ fn evaluate(run: &CaseRun, strict: bool) -> Verdict {
             }
         } else if let Some(code) = last.err {
             let want_msg = err_text_for(&call.path);
-            let okay = matches!(&call.res, Res::Server { code: c2, message } if (*c2 == code || (code != 4096 && code != 6)) && *message == want_msg);
+            let okay = matches!(&call.res, Res::Server { code: c2, message } if *c2 == code && *message == want_msg);
             if !okay {
                 cand(&mut v, timed_out && last_late, format!("C19:reply-not-reported:{kind}:app-error"), &format!("call {ci}: the node answered the last attempt with application error {code} '{want_msg}' but the call reported {}", call.res.long()));
             }
